@@ -101,6 +101,7 @@ h!(q_uninit_hs_drop_n2, uninit_hs_drop::<2>());
 h!(q_uninit_hs_drop_n0, uninit_hs_drop::<0>());
 h!(r0_uninit_hs_drop_n1, uninit_hs_drop::<1>());
 h!(r1_uninit_hs_drop_n3, uninit_hs_drop::<3>());
+h!(t_uninit_hs_drop_n4, uninit_hs_drop::<4>());
 
 fn uninit_hs_init<const N: usize>() {
     let vals: [u8; N] = kani::any();
@@ -122,6 +123,8 @@ fn uninit_hs_init<const N: usize>() {
 h!(q_uninit_hs_init_n2, uninit_hs_init::<2>());
 h!(r0_uninit_hs_init_n0, uninit_hs_init::<0>());
 h!(r2_uninit_hs_init_n3, uninit_hs_init::<3>());
+h!(t_uninit_hs_init_n1, uninit_hs_init::<1>());
+h!(t_uninit_hs_init_n4, uninit_hs_init::<4>());
 
 fn uninit_slice<const N: usize>(init: bool, via_arc: bool) {
     let mask: u8 = kani::any();
